@@ -1,6 +1,7 @@
 import Driver.Wire
 import FixModel.Spec.Codec
 import FixModel.SessionBridge
+import FixModel.Pool
 import Std.Data.HashMap
 /-!
 # fixdriver — one operation per input line, one result per output line
@@ -17,6 +18,25 @@ def resStr {α} (f : α → String) : Res α → String
   | .panic => "panic"
 
 def pf (b : Bool) : String := if b then "pass" else "fail"
+
+def bitsToH (start : Nat) (bits : String) : List H :=
+  if bits = "-" then [] else
+  (bits.toList.zipIdx).map fun (c, i) => { id := start + i, verdict := c = '1' }
+
+def idsStr (l : List Nat) : String := ",".intercalate (l.map toString)
+
+def poolOp (args : List String) : Option String :=
+  match args with
+  | ["out", a, t, ok] =>
+    let allH := bitsToH 0 a
+    let typedH := bitsToH allH.length t
+    let r := handlerSend allH typedH (if ok = "1" then some [1] else none)
+    some ("log " ++ idsStr r.1 ++ " | enq " ++ (if r.2.isSome then "1" else "0"))
+  | ["in", a, t] =>
+    let allH := bitsToH 0 a
+    let typedH := bitsToH allH.length t
+    some ("log " ++ idsStr (handlerServe allH typedH))
+  | _ => none
 
 def stepLine (line : String) : String :=
   match (line.splitOn " ").filter (· ≠ "") with
@@ -42,6 +62,7 @@ def stepLine (line : String) : String :=
           pure (match lookupField t (looseFields d) with
             | some v => "some " ++ dBytes v
             | none => "none")) args
+      | "pool" => poolOp args
       | _ => none
     r.getD "bad-op"
 
